@@ -263,6 +263,15 @@ def finalize(out: Outcome):
                 f['cex'] = kani_side.kani_counterexample(f['kani_crate'], f['kani_harness'])
             except Exception as e:
                 f['cex'] = None
+            # ... replayed against the real code: the harness, compiled natively with the real macro, run
+            # with the verifier's values (self-contained crate next to the replay file)
+            try:
+                if f.get('cex'):
+                    safe = ''.join(c if c.isalnum() or c in '._-' else '_' for c in f['key'])[:150]
+                    dest = os.path.join(report.REPLAY_DIR, '%s__%s_playback' % (out.prop, safe))
+                    f['playback'] = kani_side.kani_native_playback(f['kani_crate'], f['kani_harness'], f['cex'], dest)
+            except Exception as e:
+                f['playback'] = {'reproduced': None, 'note': 'native playback error: %r' % e}
             ncex += 1
     lines = 0
     for f in ordered + rest:
@@ -288,12 +297,15 @@ def finalize(out: Outcome):
             'declaration': d.source() if d is not None else f.get('declaration', ''),
             'decl_id': d.id if d is not None else None,
             'verifier_message': f.get('message'), 'verifier_output': f.get('detail', '')[:6000],
-            'counterexample (Kani concrete playback: the values of the kani::any() calls in order)': f.get('cex'),
+            'counterexample (Kani concrete playback: the values of the kani::any() calls in order)': (f.get('cex') or {}).get('values') if isinstance(f.get('cex'), dict) else f.get('cex'),
+            'counterexample_failing_check': (f.get('cex') or {}).get('failing_check') if isinstance(f.get('cex'), dict) else None,
+            'kani_playback': f.get('playback'),
             'witnesses_against_real_code': (wit or [])[:5],
             'witness_log': (f.get('wlog') or '')[-1500:] if not wit else '',
             'replay_cmd': './check --replay <this file>',
         }
-        found = bool(wit)
+        pb = f.get('playback') or {}
+        found = bool(wit) or pb.get('reproduced') is True
         out.violations.append((key, None, found))
         if lines < MAX_LINES:
             path = report.write_replay(out.prop, key, payload)
@@ -544,6 +556,16 @@ def replay(path):
     print('obligation :', p['obligation'])
     print('declaration:\n' + p.get('declaration', ''))
     print('verifier   :', p.get('verifier_message'))
+    pb = p.get('kani_playback') or {}
+    pb_failed = False
+    if pb.get('dir') and os.path.isdir(pb['dir']) and pb.get('test_name'):
+        from vf import kani_side
+        print('verifier counterexample:', json.dumps(p.get('counterexample (Kani concrete playback: the values of the kani::any() calls in order)')))
+        r = kani_side.run_native_playback(pb['dir'], pb['test_name'], pb.get('should_panic_harness', False), pb.get('stubs_not_applied_natively', ()))
+        print('native playback of the harness on the real code (%s): reproduced=%s %s' % (r.get('cmd'), r.get('reproduced'), r.get('native_panic') or r.get('note') or ''))
+        if r.get('reproduced'):
+            print('REAL CODE FAILS UNDER THE VERIFIER\'S COUNTEREXAMPLE: check=%s values=%s' % (p.get('counterexample_failing_check'), json.dumps([v.get('value') for v in (p.get('counterexample (Kani concrete playback: the values of the kani::any() calls in order)') or [])])))
+            pb_failed = True
     did = p.get('decl_id')
     d = None
     cands = catalogue.all_decls()
@@ -554,6 +576,8 @@ def replay(path):
             d = c
     if d is None:
         print('declaration not in the catalogue any more; verifier output follows\n', p.get('verifier_output', ''))
+        return 1
+    if pb_failed:
         return 1
     wit, log = witness.run_witness(d)
     if wit is None:
